@@ -70,14 +70,15 @@ Proof.
 Qed.
 
 Lemma wp_drop_items m items : forall unw H K Qr Qt QF,
+  sub_ok (holds_of m (gleaves items)) H ->
   Qr VUnit (rel_all (holds_of m (gleaves items)) H) K -> wp (drop_items m unw items) H K Qr Qt QF.
 Proof.
-  induction items as [|[k l|p] r IH]; intros unw H K Qr Qt QF Q; cbn [drop_items gleaves].
+  induction items as [|[k l|p] r IH]; intros unw H K Qr Qt QF S Q; cbn [drop_items gleaves].
   - exact Q.
-  - cbn [gleaves holds_of map rel_all fold_left] in Q. destruct unw.
-    + apply wp_then. cbn [Wp.wp]. apply wp_leaf_unlock. apply IH. exact Q.
-    + apply wp_then. cbn [Wp.wp]. apply wp_leaf_unlock. apply IH. exact Q.
-  - apply wp_then. destruct unw; [cbn [Wp.wp op_]|cbn [Wp.wp skip]]; apply IH; exact Q.
+  - cbn [gleaves holds_of map sub_ok rel_all fold_left] in S, Q. destruct S as [S1 S2]. destruct unw.
+    + apply wp_then. cbn [Wp.wp]. apply wp_leaf_unlock; [exact S1|]. apply IH; assumption.
+    + apply wp_then. cbn [Wp.wp]. apply wp_leaf_unlock; [exact S1|]. apply IH; assumption.
+  - apply wp_then. destruct unw; [cbn [Wp.wp op_]|cbn [Wp.wp skip]]; apply IH; assumption.
 Qed.
 
 Lemma wp_with_key (dp dd : bool) body H K Qr Qt QF :
@@ -95,7 +96,7 @@ Lemma wp_fmt_leaf k l H K Qr Qt QF :
   Qr (VNat 0) H K -> Qr (VNat 1) H K -> wp (fmt_leaf k l) H K Qr Qt QF.
 Proof.
   intros Q0 Q1. unfold fmt_leaf. cbn [Wp.wp]. apply wp_leaf_try; cbn [vtrue].
-  - apply wp_then. cbn [Wp.wp op_]. split; [eexists; left; reflexivity|]. intros n. apply wp_then. apply wp_leaf_unlock. rewrite rem1_head. exact Q0.
+  - apply wp_then. cbn [Wp.wp op_]. split; [eexists; left; reflexivity|]. intros n. apply wp_then. apply wp_leaf_unlock; [now left|]. rewrite rem1_head. exact Q0.
   - exact Q1.
 Qed.
 
@@ -120,12 +121,12 @@ Proof.
   destruct (root_poison s) as [p|].
   - cbn [Wp.wp]. apply wp_with_key. apply wp_then. apply ACQ. intros H' P. apply wp_then. cbn [Wp.wp].
     apply wp_closure; [now apply CV| |].
-    + apply wp_raw_unlock. rewrite (rel_all_perm_nil _ _ P). destruct lent; cbn [negb]; exact Q.
-    + apply wp_then. cbn [Wp.wp op_]. apply wp_raw_unlock. rewrite (rel_all_perm_nil _ _ P). destruct lent; cbn [negb]; exact T.
+    + apply wp_raw_unlock; [apply (sub_ok_perm _ _ []); now rewrite app_nil_r|]. rewrite (rel_all_perm_nil _ _ P). destruct lent; cbn [negb]; exact Q.
+    + apply wp_then. cbn [Wp.wp op_]. apply wp_raw_unlock; [apply (sub_ok_perm _ _ []); now rewrite app_nil_r|]. rewrite (rel_all_perm_nil _ _ P). destruct lent; cbn [negb]; exact T.
   - cbn [Wp.wp]. apply wp_with_key. apply wp_then. apply ACQ. intros H' P. cbn [Wp.wp].
     apply wp_closure; [now apply CV| |].
-    + apply wp_then. apply wp_raw_unlock. rewrite (rel_all_perm_nil _ _ P). cbn [Wp.wp]. destruct lent; cbn [negb]; exact Q.
-    + apply wp_raw_unlock. rewrite (rel_all_perm_nil _ _ P). destruct lent; cbn [negb]; exact T.
+    + apply wp_then. apply wp_raw_unlock; [apply (sub_ok_perm _ _ []); now rewrite app_nil_r|]. rewrite (rel_all_perm_nil _ _ P). cbn [Wp.wp]. destruct lent; cbn [negb]; exact Q.
+    + apply wp_raw_unlock; [apply (sub_ok_perm _ _ []); now rewrite app_nil_r|]. rewrite (rel_all_perm_nil _ _ P). destruct lent; cbn [negb]; exact T.
 Qed.
 
 
@@ -214,11 +215,13 @@ Proof.
         -- cbn [api_fin is_lent]. fin_nostop. cbn [fst]. apply tb_none; [reflexivity|]. destruct lent; [reflexivity|discriminate].
       * intros H' P. apply Permutation_sym, Permutation_nil in P. subst H'. cbn [vtrue Wp.wp api_fin]. fin_nostop. exact T.
   - (* AGuardDrop *) destruct (guard lc) as [g|] eqn:G; [|discriminate]. injection E as <-.
-    destruct (tb_guard lc g H K T G) as [P [Hk Kt]]. apply wp_with_key. apply wp_drop_items.
-    unfold ghold in P. rewrite (rel_all_perm_nil _ _ P). cbn [api_fin]. fin_nostop. cbn [fst]. apply tb_none; [reflexivity|discriminate].
+    destruct (tb_guard lc g H K T G) as [P [Hk Kt]]. apply wp_with_key. unfold ghold in P.
+    apply wp_drop_items; [apply (sub_ok_perm _ _ []); now rewrite app_nil_r|].
+    rewrite (rel_all_perm_nil _ _ P). cbn [api_fin]. fin_nostop. cbn [fst]. apply tb_none; [reflexivity|discriminate].
   - (* AGuardUnlock *) destruct (guard lc) as [g|] eqn:G; [|discriminate]. injection E as <-.
-    destruct (tb_guard lc g H K T G) as [P [Hk Kt]]. apply wp_with_key. apply wp_drop_items.
-    unfold ghold in P. rewrite (rel_all_perm_nil _ _ P). cbn [api_fin]. fin_nostop. cbn [fst]. apply tb_none; [reflexivity|auto].
+    destruct (tb_guard lc g H K T G) as [P [Hk Kt]]. apply wp_with_key. unfold ghold in P.
+    apply wp_drop_items; [apply (sub_ok_perm _ _ []); now rewrite app_nil_r|].
+    rewrite (rel_all_perm_nil _ _ P). cbn [api_fin]. fin_nostop. cbn [fst]. apply tb_none; [reflexivity|auto].
   - (* AGuardForget *) contradiction.
   - (* AGuardRead *) destruct (guard lc) as [g|] eqn:G; [|discriminate]. injection E as <-.
     destruct (tb_guard lc g H K T G) as [PG _].
@@ -227,8 +230,9 @@ Proof.
     destruct (tb_guard lc g H K T G) as [PG _].
     apply (wp_cs_prog _ (g_mode g) (g_items g) (CWrite pos)); [now apply covers_perm|intros v|]; cbn [api_fin]; fin_nostop; exact T.
   - (* APanic *) destruct (guard lc) as [g|] eqn:G; injection E as <-; cbn [Wp.wp].
-    + destruct (tb_guard lc g H K T G) as [P [Hk Kt]]. apply wp_with_key. apply wp_drop_items.
-      unfold ghold in P. rewrite (rel_all_perm_nil _ _ P). cbn [Wp.wp api_fin]. fin_nostop. cbn [fst]. apply tb_none; [reflexivity|discriminate].
+    + destruct (tb_guard lc g H K T G) as [P [Hk Kt]]. apply wp_with_key. unfold ghold in P.
+      apply wp_drop_items; [apply (sub_ok_perm _ _ []); now rewrite app_nil_r|].
+      rewrite (rel_all_perm_nil _ _ P). cbn [Wp.wp api_fin]. fin_nostop. cbn [fst]. apply tb_none; [reflexivity|discriminate].
     + unfold TB in T. rewrite G in T. destruct T as [EH EK]. subst H. apply wp_with_key. cbn [Wp.wp skip api_fin].
       fin_nostop. cbn [fst]. apply tb_none; [reflexivity|discriminate].
   - (* AIsPoisoned *) destruct (coll e c) as [[| | | | | |q s']|]; try discriminate. injection E as <-.
